@@ -12,7 +12,7 @@ LEVEL = "exploration"
 RULE = ("Hypothesis-generated expression trees (depth <=4 quick / <=6 thorough) over a host packet with operands a=Int(1), "
         "b=Int(1,signed), c/e=Bits(3)/Bits(5), s=Int(1).repeated(4), d=Data(3), o=Int(1).when(a): the 18 binary operators in BOTH "
         "operand orders with field/constant/sub-expression operands (reflected forms arise from constant-on-the-left), unary -,~, "
-        "__nonzero__, __len__, indexing by constant/field/expression, constant-bound slicing incl. steps, chooses in list/dict/"
+        "__nonzero__, __len__, indexing by constant/field/expression, constant-bound slicing incl. steps, concatenation/repetition of sliced sequences with the constant on either side, int/float/bool constants, chooses in list/dict/"
         "positional/keyword form, if_true_then_else in list/positional form; right operands of ** and << bounded by construction. "
         "(i) compile_expr_into_callable(expr)(pkt=parsed packet) vs eager evaluation of the mirrored tree with operator.* left to "
         "right: equal value and bool/int/float kind, or the same exception class; every compiled expression is evaluated on 4 "
@@ -46,7 +46,7 @@ class EG:
         self.d, self.maxdepth = draw, maxdepth
 
     def const(self):
-        return ["c", self.d(st.sampled_from([0, 1, 2, 3, 5, 7, 8, 16, 255, -1, -3]))]
+        return ["c", self.d(st.sampled_from([0, 1, 2, 3, 5, 7, 8, 16, 255, -1, -3, 1, 2, 1.0, 2.0, 0.5, True, False]))]
 
     def intfield(self):
         return ["f", self.d(st.sampled_from(["a", "a", "b", "b", "c", "e", "o"]))]
@@ -87,6 +87,26 @@ class EG:
         if t == 10:
             form = d(st.sampled_from(["list", "pos"]))
             return ["ite", self.deferred(self.intexpr(depth + 1)), self.intexpr(depth + 1), self.intexpr(depth + 1), form]
+        if t == 11 and chance(d, 0.5):
+            # concatenation / repetition of sequence-valued sub-expressions, constant on either side
+            which = d(st.sampled_from(["s", "d"]))
+            sl = ["slice", ["f", which], d(st.sampled_from([None, 0, 1])), d(st.sampled_from([None, 2, 3])), None]
+            cst = ["c", d(st.sampled_from([[7], [1, 2], []]))] if which == "s" else ["c", d(st.sampled_from([b">", b"ab", b""]))]
+            form = d(st.integers(0, 3))
+            if form == 0:
+                cat = ["bin", "add", cst, sl]
+            elif form == 1:
+                cat = ["bin", "add", sl, cst]
+            elif form == 2:
+                cat = ["bin", "mul", sl, ["c", 2]]
+            else:
+                cat = ["bin", "add", sl, ["slice", ["f", which], 1, 3, None]]
+            use = d(st.integers(0, 2))
+            if use == 0:
+                return ["bin", d(st.sampled_from(["eq", "ne"])), cat, ["bin", "add", cst, sl] if chance(d, 0.5) else cst]
+            if use == 1:
+                return ["un", "len", cat]
+            return ["idx", cat, ["c", d(st.sampled_from([0, -1, 1]))]] if which == "s" else ["idx", cat, ["c", 0]]
         # sequence comparison
         which = d(st.sampled_from(["s", "d"]))
         lo, hi = d(st.sampled_from([None, 0, 1, 2])), d(st.sampled_from([None, 1, 2, 3, -1]))
@@ -152,12 +172,39 @@ def features(e, depth=0, above_noncomm=False, acc=None):
     return acc
 
 
+def fix_consts(e, g):
+    """a sub-tree without any field is evaluated by plain Python when the class body runs: if that raises, it is not a deferred
+    expression at all (generator error) - put a field there"""
+    if not isinstance(e, list) or not e or e[0] in ("f", "c"):
+        return e
+    if not X.fields_of(e):
+        try:
+            X.evaluate(e, X.Env({}))
+        except Exception:
+            return g.intfield()
+        return e
+    out = []
+    for x in e:
+        if isinstance(x, list) and x and isinstance(x[0], str) and x[0] in ("f", "c", "bin", "un", "idx", "slice", "ch", "ite"):
+            out.append(fix_consts(x, g))
+        elif isinstance(x, list) and x and x[0] in ("list", "dict"):
+            if x[0] == "list":
+                out.append(["list", [fix_consts(y, g) for y in x[1]]])
+            else:
+                out.append(["dict", [[k, fix_consts(y, g)] for k, y in x[1]]])
+        else:
+            out.append(x)
+    return out
+
+
 @st.composite
 def cases(draw, maxdepth):
     g = EG(draw, maxdepth)
     exprs = [g.intexpr(0) for _ in range(6)]
     # a bare field assigned to a second name in the class body would declare the field twice: keep top-level trees non-leaf
-    exprs = [e if e[0] not in ("f", "c") else ["bin", draw(st.sampled_from(["add", "sub", "or"])), e, ["c", 0]] for e in exprs]
+    exprs = [e if e[0] not in ("f", "c") else ["bin", draw(st.sampled_from(["add", "sub", "or"])), e if e[0] == "f" else g.intfield(), e if e[0] == "c" else ["c", 0]]
+             for e in exprs]
+    exprs = [fix_consts(e, g) for e in exprs]
     raws = []
     for _ in range(4):
         a = draw(st.sampled_from([0, 0, 1, 2, 3, 5, 255]))
@@ -169,7 +216,7 @@ def cases(draw, maxdepth):
     # second use: the expression drives a Data size / repeated count / when condition
     use = draw(st.sampled_from(["size", "count", "when"]))
     form = draw(st.sampled_from(["expr", "call"]))
-    e2 = g.deferred(g.intexpr(1))
+    e2 = fix_consts(g.deferred(g.intexpr(1)), g)
     if use in ("size", "count"):
         e2 = ["bin", "and", e2, ["c", 7]] if chance(draw, 0.7) else e2
     tails = [draw(st.binary(max_size=10)) for _ in range(4)]
